@@ -21,9 +21,15 @@ func (k Keeper) EndBlocker(ctx sdk.Context) error {
 	k.DeleteFeeInfo(ctx)
 
 	// distribute LP rewards
-	err := k.ProcessLPRewardDistribution(ctx)
+	// A failed distribution (e.g. a fee conversion swap that cannot be priced while
+	// the oracle feed is missing) must not halt the chain: run it on a cached
+	// context, discard partial effects on error and retry in the next block.
+	cacheCtx, write := ctx.CacheContext()
+	err := k.ProcessLPRewardDistribution(cacheCtx)
 	if err != nil {
-		return err
+		ctx.Logger().Error("failed to distribute lp rewards", "error", err)
+	} else {
+		write()
 	}
 	// distribute external rewards
 	k.ProcessExternalRewardsDistribution(ctx)
